@@ -1,3 +1,3 @@
 SPECIFICATION Spec
 CONSTANT Dev = {"admin_via_pool"}
-INVARIANTS NoOkWithoutCredentials OnlyValidAdmitted
+INVARIANTS NoOkWithoutCredentials OnlyValidAdmitted AdmittedOnlyByRule
